@@ -97,6 +97,7 @@ func (self *mutateContext) runPreCommitActions() error {
 }
 
 func (self *mutateContext) handleCommit() {
+	verifPoint("commit.handle")
 	go func() {
 		for _, hook := range self.commitActions {
 			hook()
